@@ -125,6 +125,7 @@ class GatedObserver:
         self.noise = 0
         self.add_watch_log = []  # (path, result wd or -errno)
         self.add_watch_faults = {}   # call index -> errno
+        self.add_watch_hooks = {}    # call index -> callable(path bytes), run right before the real inotify_add_watch
         self.walk_faults = {}        # call index -> errno  (os.walk inside inotify_c)
         self.events = []         # events delivered to the handler, in order
         self.thread_errors = []
@@ -165,6 +166,8 @@ class GatedObserver:
                 ctypes.set_errno(me.add_watch_faults[n])
                 me.add_watch_log.append((path, -me.add_watch_faults[n]))
                 return -1
+            if n in me.add_watch_hooks:
+                me.add_watch_hooks.pop(n)(path)      # a change by another process at exactly this moment
             wd = real_add(fd, path, mask)
             me.add_watch_log.append((path, wd))
             if wd >= 0 and n > 0 and not os.path.isdir(path):
